@@ -29,7 +29,7 @@ var cv = rsm2.Std
 func curve() elliptic.Curve { return sm2.P256Sm2() }
 
 func TestMain(m *testing.M) {
-	R.Require("limb_sparse_enum", "jac_negY_short", "k>=n", "k_leading_zero_bytes", "len(k)>32", "k_wnaf_meet", "Add_equal", "Add_opposite", "Add_inf", "limb_max", "limb_carry", "genkey_allzero", "genkey_short")
+	R.Require("limb_sparse_enum", "jac_negY_short", "operands_in_reused_objects", "k>=n", "k_leading_zero_bytes", "len(k)>32", "k_wnaf_meet", "Add_equal", "Add_opposite", "Add_inf", "limb_max", "limb_carry", "genkey_allzero", "genkey_short")
 	hx.Main(m, R)
 }
 
@@ -113,10 +113,31 @@ func checkBaseMult(t interface{ Fatalf(string, ...any) }, k []byte) {
 	}
 }
 
+// the caller's coordinate objects and scalar buffer of every second ScalarMult / Add / Double call: the SAME big.Int
+// objects and byte slice, overwritten in place from call to call (a long-lived accumulator). The curve works on the
+// numbers they hold at the time of the call, whatever they held before.
+var (
+	reuseX, reuseY = new(big.Int), new(big.Int)
+	reuseK         = make([]byte, 0, 64)
+	multCalls      int
+)
+
 func checkMult(t interface{ Fatalf(string, ...any) }, p rsm2.Point, k []byte) {
 	var x, y *big.Int
-	if pn := hx.Try(func() { x, y = curve().ScalarMult(p.X, p.Y, k) }); pn != nil {
+	px, py, kk := p.X, p.Y, k
+	multCalls++
+	if multCalls%2 == 0 && !p.Inf {
+		reuseX.Set(p.X)
+		reuseY.Set(p.Y)
+		reuseK = append(reuseK[:0], k...)
+		px, py, kk = reuseX, reuseY, reuseK
+		R.Class("operands_in_reused_objects")
+	}
+	if pn := hx.Try(func() { x, y = curve().ScalarMult(px, py, kk) }); pn != nil {
 		t.Fatalf("ScalarMult(P=(%x,%x), %x) panicked: %v\n%s", p.X, p.Y, k, pn.Val, pn.Stack)
+	}
+	if !p.Inf && (px.Cmp(p.X) != 0 || py.Cmp(p.Y) != 0 || !bytes.Equal(kk, k)) {
+		t.Fatalf("ScalarMult modified its operands")
 	}
 	want := cv.Mul(p, new(big.Int).Mod(new(big.Int).SetBytes(k), cv.N))
 	if !eqAff(x, y, want) {
